@@ -9,6 +9,12 @@ Theorem C12_constants :
   CTR_MAX_SEQUENCE_AGE_SECS = 3600 /\ CTR_FUTURE_SKEW_SECS = 60 /\ 0 < CTR_MAX_SEQUENCE_HISTORY.
 Proof. repeat split; reflexivity. Qed.
 
+(* structural fact re-read from the source: validate-and-apply is ONE critical section (the counters
+   write lock is taken exactly once, the read lock never) in validate_sequence and in batch_update;
+   this is what makes an interleaving of submitters a sequence of [Submit] steps *)
+Theorem C12_single_critical_section : CTR_SINGLE_WRITE_SECTION = 1 /\ CTR_BATCH_SINGLE_WRITE_SECTION = 1.
+Proof. split; reflexivity. Qed.
+
 (* Valid  <=>  timestamp in the window and seq = last + 1 *)
 Theorem C12_accept_exactly_next : forall now c seq h ts,
   Inv c ->
